@@ -171,6 +171,7 @@ pub fn main(spec_path: &str) {
     let mut max_hist = 100usize;
     let mut printer = false;
     let mut pause = false;
+    let mut nprinters = 0usize;
     let mut binds: Vec<(Vec<KeyEvent>, Cmd)> = Vec::new();
     for l in spec.lines() {
         let t: Vec<&str> = l.split_whitespace().collect();
@@ -209,6 +210,7 @@ pub fn main(spec_path: &str) {
             "max_hist" => max_hist = t[1].parse().unwrap(),
             "printer" => printer = t[1] == "1",
             "pause" => pause = t[1] == "1",
+            "printers" => nprinters = t[1].parse().unwrap(),
             "bind" => binds.push((parse_keys(t[1]), parse_cmd(&t[2..]))),
             _ => panic!("spec line {l}"),
         }
@@ -241,8 +243,39 @@ pub fn main(spec_path: &str) {
         rl.bind_sequence(Event::KeySeq(keys), EventHandler::Simple(cmd));
     }
     let mut _printer = None;
-    if printer {
+    if printer && nprinters == 0 {
         _printer = rl.create_external_printer().ok();
+    }
+    // printer threads, told what to print by lines "<thread> <hex text>" on fd 4; each finished print is
+    // acknowledged on the log as "P <thread> <hex text>"
+    if nprinters > 0 {
+        use rustyline::ExternalPrinter;
+        use std::io::BufRead;
+        let mut senders = Vec::new();
+        for t in 0..nprinters {
+            let mut p = rl.create_external_printer().expect("external printer");
+            let (tx, rx) = std::sync::mpsc::channel::<String>();
+            senders.push(tx);
+            let log2 = log.clone();
+            std::thread::spawn(move || {
+                for msg in rx {
+                    let r = p.print(parse_str(&msg));
+                    logln(&log2, &format!("P {} {} {}", t, msg, if r.is_ok() { "ok" } else { "err" }));
+                }
+            });
+        }
+        std::thread::spawn(move || {
+            let ctl = unsafe { File::from_raw_fd(4) };
+            for line in std::io::BufReader::new(ctl).lines() {
+                let Ok(line) = line else { break };
+                let mut it = line.split_whitespace();
+                let (Some(t), Some(m)) = (it.next(), it.next()) else { continue };
+                let t: usize = t.parse().unwrap_or(0);
+                if let Some(tx) = senders.get(t) {
+                    let _ = tx.send(m.to_owned());
+                }
+            }
+        });
     }
     logln(&log, "S ready");
     for i in 0..reads {
